@@ -110,6 +110,111 @@ impl RefType {
     }
 }
 
+/// Makes the invisible groups of a derive input (how `macro_rules!` passes its `$e:expr` and `$t:ty`
+/// fragments on) explicit where they matter.
+///
+/// The compiler ignores an invisible group coming back from a proc macro, so `2 * $e` re-emitted
+/// for `$e = 1 + 1` would be read as `2 * 1 + 1`, and `&$t` for `$t = dyn A + B` as `&dyn A + B`.
+/// Everywhere else the group only hides the type or expression it holds, so it is dropped.
+pub(crate) fn normalize_invisible_groups(input: &mut syn::DeriveInput) {
+    use syn::visit_mut::{self, VisitMut};
+
+    fn ungroup_expr(expr: &mut syn::Expr) {
+        while let syn::Expr::Group(_) = expr {
+            let placeholder = syn::Expr::Verbatim(TokenStream::new());
+            if let syn::Expr::Group(group) = std::mem::replace(expr, placeholder) {
+                *expr = *group.expr;
+            }
+        }
+    }
+
+    fn ungroup_type(ty: &mut syn::Type) {
+        while let syn::Type::Group(_) = ty {
+            let placeholder = syn::Type::Verbatim(TokenStream::new());
+            if let syn::Type::Group(group) = std::mem::replace(ty, placeholder) {
+                *ty = *group.elem;
+            }
+        }
+    }
+
+    /// Parenthesizes a bare trait object with several bounds, for the pointee of `&` or `*`.
+    fn parenthesize_bounds(ty: &mut syn::Type) {
+        if !matches!(ty, syn::Type::Group(_)) {
+            return;
+        }
+        ungroup_type(ty);
+        let several = match ty {
+            syn::Type::TraitObject(obj) => obj.bounds.len() > 1,
+            syn::Type::ImplTrait(obj) => obj.bounds.len() > 1,
+            _ => false,
+        };
+        if several {
+            let elem = std::mem::replace(ty, syn::Type::Verbatim(TokenStream::new()));
+            *ty = syn::Type::Paren(syn::TypeParen {
+                paren_token: Default::default(),
+                elem: Box::new(elem),
+            });
+        }
+    }
+
+    struct Normalizer;
+
+    impl VisitMut for Normalizer {
+        fn visit_attribute_mut(&mut self, _: &mut syn::Attribute) {}
+
+        fn visit_variant_mut(&mut self, variant: &mut syn::Variant) {
+            if let Some((_, discriminant)) = &mut variant.discriminant {
+                ungroup_expr(discriminant);
+            }
+            visit_mut::visit_variant_mut(self, variant);
+        }
+
+        fn visit_type_array_mut(&mut self, array: &mut syn::TypeArray) {
+            ungroup_expr(&mut array.len);
+            visit_mut::visit_type_array_mut(self, array);
+        }
+
+        fn visit_type_reference_mut(&mut self, reference: &mut syn::TypeReference) {
+            parenthesize_bounds(&mut reference.elem);
+            visit_mut::visit_type_reference_mut(self, reference);
+        }
+
+        fn visit_type_ptr_mut(&mut self, ptr: &mut syn::TypePtr) {
+            parenthesize_bounds(&mut ptr.elem);
+            visit_mut::visit_type_ptr_mut(self, ptr);
+        }
+
+        fn visit_type_mut(&mut self, ty: &mut syn::Type) {
+            ungroup_type(ty);
+            visit_mut::visit_type_mut(self, ty);
+        }
+
+        fn visit_expr_mut(&mut self, expr: &mut syn::Expr) {
+            if let syn::Expr::Group(_) = expr {
+                let placeholder = syn::Expr::Verbatim(TokenStream::new());
+                if let syn::Expr::Group(group) = std::mem::replace(expr, placeholder) {
+                    *expr = match *group.expr {
+                        inner @ (syn::Expr::Group(_)
+                        | syn::Expr::Path(_)
+                        | syn::Expr::Lit(_)
+                        | syn::Expr::Paren(_)
+                        | syn::Expr::Block(_)) => inner,
+                        inner => syn::Expr::Paren(syn::ExprParen {
+                            attrs: group.attrs,
+                            paren_token: Default::default(),
+                            expr: Box::new(inner),
+                        }),
+                    };
+                }
+                return self.visit_expr_mut(expr);
+            }
+            visit_mut::visit_expr_mut(self, expr);
+        }
+    }
+
+    Normalizer.visit_derive_input_mut(input);
+}
+
 /// Replaces every `Self` in the provided type with the provided tokens (the deriving type with its
 /// generic arguments), so the type may be spelled where `Self` means something else.
 #[cfg(any(feature = "into", feature = "into_iterator", feature = "try_into"))]
